@@ -306,6 +306,13 @@ DIRECTED = [
                "var/cache/c.bin": ("binary", b"\x00\x01\x02\xff\xfebin\x00"), "var/cache_key.py": ("text", b"x = 1\n"), "docs/node_modules.md": ("text", b"hello\n"),
                "node_modules/m/i.js": ("text", b"x = 1\n"), "tmp.log": ("text", b"hello\n"), "tmp.logs": ("text", b"hello\n"), "README.md": ("text", b"hello\n")},
      "git": {"ignore": {"": ["build/", "/var/cache", "node_modules/", "*.log"]}, "tracked": ["README.md"], "forced": [], "submodules": [], "exclude": []}},
+    # two names of one inode (hard links, as some vendoring / de-duplication tools leave them): each name is a covered file
+    {"nodes": {"src/util.py": ("text", b"x = 1\n"), "src/util_alias.py": ("hardlink", "src/util.py"), "one.txt": ("text", b"hello\n"), "two.txt": ("hardlink", "one.txt"),
+               "docs/x.md": ("text", b"hello\n"), "docs/LICENSES/inner.txt": ("text", b"hello\n"), "third_party/foo/.reuse/dep5": ("text", b"hello\n"), "third_party/foo/LICENSES/MIT.txt": ("text", b"hello\n"),
+               "third_party/foo/code.c": ("text", b"x = 1\n")},
+     "git": None},
+    {"nodes": {"src/util.py": ("text", b"x = 1\n"), "src/util_alias.py": ("hardlink", "src/util.py"), "one.txt": ("text", b"hello\n"), "two.txt": ("hardlink", "one.txt")},
+     "git": {"ignore": {}, "tracked": ["src/util.py", "one.txt"], "forced": [], "submodules": [], "exclude": []}},
 ]
 
 
